@@ -83,6 +83,9 @@ func scenarios(thorough bool) []scenario {
 		// three subscribers of one type: an unsubscribe of the first / middle one races a Post that is walking the list
 		{"unsubscribe-first-of-three-vs-post", [][]op{{U(0)}, {A(1), A(2)}}, 3, []op{S(0), S(1), S(2)}},
 		{"unsubscribe-middle-of-three-vs-post", [][]op{{U(1)}, {A(1)}, {A(2)}}, 3, []op{S(0), S(1), S(2)}},
+		// Stop walks all subscriptions under the dispatcher lock while an Unsubscribe (second of two) and a Post run
+		{"unsubscribe-vs-stop-vs-post", [][]op{{U(1)}, {X}, {A(1)}}, 2, []op{S(0), S(1)}},
+		{"unsubscribe-twice-vs-stop", [][]op{{U(0), U(0)}, {X}}, 1, []op{S(0)}},
 	}
 	if thorough {
 		sc = append(sc,
